@@ -10,26 +10,31 @@ use std::sync::Arc;
 
 pub type Builder<'a> = &'a dyn Fn() -> Arc<dyn Fft<Fp>>;
 
-pub struct Built {
-    pub fft: Arc<dyn Fft<Fp>>,
+pub struct BuiltG<R> {
+    pub obj: R,
     pub field: Field,
     /// flags raised while constructing (binding mismatch, unknown constants...)
     pub build_flags: u32,
     pub twiddle_lens: Vec<u64>,
 }
+pub struct Built {
+    pub fft: Arc<dyn Fft<Fp>>,
+    pub field: Field,
+    pub build_flags: u32,
+    pub twiddle_lens: Vec<u64>,
+}
 
 /// Two passes: collect twiddle lengths, pick the `which`-th suitable prime, build again in that field.
-/// Err(msg) = construction panicked (msg) ; the caller decides whether that is a verdict.
-pub fn build_in_field(build: Builder, n: usize, which: usize) -> Result<Result<Built, String>, String> {
+/// Outer Err(msg) = construction panicked (msg); inner Err = no suitable field (machinery note).
+pub fn build_in_field_generic<R>(build: &dyn Fn() -> R, extra_lens: &[u64], which: usize) -> Result<Result<BuiltG<R>, String>, String> {
     fp::begin_collect();
     let r = catch_unwind(AssertUnwindSafe(|| build()));
     let mut lens = fp::end_collect();
     if let Err(e) = r {
         return Err(crate::core::panic_text(&e));
     }
-    if n > 0 {
-        lens.push(n as u64);
-    }
+    drop(r);
+    lens.extend(extra_lens.iter().copied().filter(|&l| l > 0));
     lens.sort();
     lens.dedup();
     let field = match fp::make_field(&lens, which) {
@@ -37,12 +42,19 @@ pub fn build_in_field(build: Builder, n: usize, which: usize) -> Result<Result<B
         Err(m) => return Ok(Err(m)),
     };
     fp::install(&field);
-    let fft = match catch_unwind(AssertUnwindSafe(|| build())) {
+    let obj = match catch_unwind(AssertUnwindSafe(|| build())) {
         Ok(f) => f,
         Err(e) => return Err(crate::core::panic_text(&e)),
     };
     let build_flags = fp::take_flags();
-    Ok(Ok(Built { fft, field, build_flags, twiddle_lens: lens }))
+    Ok(Ok(BuiltG { obj, field, build_flags, twiddle_lens: lens }))
+}
+
+pub fn build_in_field(build: Builder, n: usize, which: usize) -> Result<Result<Built, String>, String> {
+    match build_in_field_generic(build, &[n as u64], which)? {
+        Ok(b) => Ok(Ok(Built { fft: b.obj, field: b.field, build_flags: b.build_flags, twiddle_lens: b.twiddle_lens })),
+        Err(m) => Ok(Err(m)),
+    }
 }
 
 /// image of the DFT matrix entry W^(t) for the direction: (re, im)
